@@ -11,6 +11,115 @@
                 };
                 out(false, format!("{} returned {:e} (bits {:#x}); UB not observable natively", a[0], r, r.to_bits()));
             }
+
+            // conv <what> ...: run one public conversion on a 1-pixel image (no-panic / finite / valid-code clauses)
+            "conv" => {
+                let fin = |p: &[f32; 3]| p[0].is_finite() && p[1].is_finite() && p[2].is_finite();
+                let unit = |x: f32| x >= 0.0 && x <= 1.0;
+                match a[0].as_str() {
+                    "tr" => {
+                        let t = TC_ALL[hx(&a[2]) as usize];
+                        let x = fb(&a[3]);
+                        let r = if a[1] == "lin" {
+                            LinearRgb::try_from(Rgb::new(vec![[x, 0.25, 1.0]], 1, 1, t, CP::BT709).unwrap()).map(|o| o.data()[0])
+                        } else {
+                            Rgb::try_from((LinearRgb::new(vec![[x, 0.25, 1.0]], 1, 1).unwrap(), t, CP::BT709)).map(|o| o.data()[0])
+                        };
+                        match r {
+                            Ok(o) => out(unit(x) && !fin(&o), format!("{:?} {} x={:e} -> {:?}", t, a[1], x, o)),
+                            Err(e) => out(true, format!("{:?} {} failed: {:?}", t, a[1], e)),
+                        }
+                    }
+                    "tr2px" => {
+                        let r = LinearRgb::try_from(Rgb::new(vec![[fb(&a[1]), 0.5, 0.0], [1.0, 0.0, fb(&a[2])]], 2, 1, TC::SRGB, CP::BT709).unwrap()).unwrap();
+                        out(!(r.data().len() == 2 && r.width() == 2 && r.height() == 1), format!("{:?}", r.data()));
+                    }
+                    "pr" => {
+                        let p = CP_ALL[hx(&a[2]) as usize];
+                        let px = [fb(&a[3]), fb(&a[4]), fb(&a[5])];
+                        let r = if a[1] == "in" {
+                            LinearRgb::try_from(Rgb::new(vec![px], 1, 1, TC::Linear, p).unwrap()).map(|o| o.data()[0])
+                        } else {
+                            Rgb::try_from((LinearRgb::new(vec![px], 1, 1).unwrap(), TC::Linear, p)).map(|o| o.data()[0])
+                        };
+                        match r {
+                            Ok(o) => out(unit(px[0]) && unit(px[1]) && unit(px[2]) && !fin(&o), format!("{:?} {:?} -> {:?}", p, px, o)),
+                            Err(e) => out(true, format!("{:?} failed: {:?}", p, e)),
+                        }
+                    }
+                    "xyb" | "hsl" => {
+                        let px = [fb(&a[2]), fb(&a[3]), fb(&a[4])];
+                        let l = || LinearRgb::new(vec![px], 1, 1).unwrap();
+                        let o = match (a[0].as_str(), a[1].as_str()) {
+                            ("xyb", "fwd") => Xyb::from(l()).data()[0],
+                            ("xyb", _) => LinearRgb::from(Xyb::new(vec![px], 1, 1).unwrap()).data()[0],
+                            ("hsl", "fwd") => Hsl::from(l()).data()[0],
+                            _ => LinearRgb::from(Hsl::new(vec![px], 1, 1).unwrap()).data()[0],
+                        };
+                        let numeric = !(a[0] == "hsl" && a[1] != "fwd");
+                        out(numeric && unit(px[0]) && unit(px[1]) && unit(px[2]) && !fin(&o), format!("{:?} -> {:?}", px, o));
+                    }
+                    "enc" => {
+                        let bd = hx(&a[2]) as u8;
+                        let full = a[3] == "1" || a[3] == "true";
+                        let mc = MC_ALL[hx(&a[4]) as usize];
+                        let px = [fb(&a[5]), fb(&a[6]), fb(&a[7])];
+                        let rgb = Rgb::new(vec![px], 1, 1, TC::BT1886, CP::BT709).unwrap();
+                        let c = cfg(bd, full, mc, 0, 0);
+                        let maxv = (1u32 << bd) - 1;
+                        let (ok, d) = if a[1] == "u8" {
+                            match Yuv::<u8>::try_from((&rgb, c)) {
+                                Ok(y) => ((0..3).all(|p| u32::from(y.data()[p].p(0, 0)) <= maxv) && y.config() == c && y.width() == 1 && y.height() == 1,
+                                          format!("{:?}", [y.data()[0].p(0, 0), y.data()[1].p(0, 0), y.data()[2].p(0, 0)])),
+                                Err(e) => (false, format!("{:?}", e)),
+                            }
+                        } else {
+                            match Yuv::<u16>::try_from((&rgb, c)) {
+                                Ok(y) => ((0..3).all(|p| u32::from(y.data()[p].p(0, 0)) <= maxv) && y.config() == c && y.width() == 1 && y.height() == 1,
+                                          format!("{:?}", [y.data()[0].p(0, 0), y.data()[1].p(0, 0), y.data()[2].p(0, 0)])),
+                                Err(e) => (false, format!("{:?}", e)),
+                            }
+                        };
+                        out(!ok, format!("{:?} -> {}", px, d));
+                    }
+                    _ => panic!("conv kind"),
+                }
+            }
+            // geom <T> <bd> <ssx> <ssy> <full> then per plane: bw bh w h xo yo xdec ydec (3 planes); zero samples.
+            // Accepted frames are decoded through the public API; an out-of-bounds get_unchecked aborts in the dev profile.
+            "geom" => {
+                fn build<T: Pixel>(a: &[String]) -> (Frame<T>, YuvConfig) {
+                    let n = |i: usize| a[i].parse::<usize>().unwrap();
+                    let mut planes = Vec::new();
+                    for k in 0..3 {
+                        let o = 5 + 8 * k;
+                        let (bw, bh) = (n(o), n(o + 1));
+                        let buf = vec![T::cast_from(0u8); bw * bh];
+                        let mut p = Plane::from_slice(&buf, bw);
+                        p.cfg.width = n(o + 2); p.cfg.height = n(o + 3); p.cfg.xorigin = n(o + 4); p.cfg.yorigin = n(o + 5);
+                        p.cfg.xdec = n(o + 6); p.cfg.ydec = n(o + 7);
+                        p.cfg.xpad = bw - p.cfg.xorigin - p.cfg.width; p.cfg.ypad = bh - p.cfg.yorigin - p.cfg.height;
+                        planes.push(p);
+                    }
+                    let v = planes.pop().unwrap(); let u = planes.pop().unwrap(); let y = planes.pop().unwrap();
+                    (Frame { planes: [y, u, v] }, cfg(n(1) as u8, a[4] == "1", MC::BT709, n(2) as u8, n(3) as u8))
+                }
+                fn run<T: Pixel>(a: &[String]) {
+                    let (f, c) = build::<T>(a);
+                    let l = f.planes[0].cfg.clone(); let u = f.planes[1].cfg.clone(); let v = f.planes[2].cfg.clone();
+                    let (sx, sy) = (c.subsampling_x as usize, c.subsampling_y as usize);
+                    let well = u.xdec == sx && v.xdec == sx && u.ydec == sy && v.ydec == sy && l.width % (1 << sx) == 0 && l.height % (1 << sy) == 0
+                        && u.width == l.width >> sx && v.width == l.width >> sx && u.height == l.height >> sy && v.height == l.height >> sy;
+                    match Yuv::new(f, c) {
+                        Ok(y) => {
+                            let r = Rgb::try_from(&y).unwrap();   // aborts on out-of-bounds get_unchecked (dev profile)
+                            out(!well || r.data().len() != l.width * l.height, format!("accepted (well-formed={}), decoded {} pixels", well, r.data().len()));
+                        }
+                        Err(e) => out(well, format!("rejected with {:?} (well-formed={})", e, well)),
+                    }
+                }
+                if a[0] == "u8" { run::<u8>(a) } else { run::<u16>(a) }
+            }
             _ => { eprintln!("unknown replay kind {}", kind); std::process::exit(64); }
         }
     }
